@@ -550,7 +550,7 @@ func runC06(e *core.Env) error {
 			}
 		}
 	}
-	reps := e.N(1, 8)
+	reps := e.N(2, 8)
 	for rep := 0; rep < reps; rep++ {
 		for _, g := range grid {
 			if e.OverBudget() {
@@ -607,7 +607,7 @@ func runC06(e *core.Env) error {
 				runAhead()
 			}
 			// optionally a prior recorded position (as left by an earlier run with another start)
-			prior := rr.Chance(1, 3)
+			prior := rep%2 == 1 && rr.Chance(2, 3) // (every grid point is run at least once WITHOUT a prior position)
 			if prior {
 				pn := uint64(1 + rr.Intn(4))
 				var hsh []byte
